@@ -502,8 +502,37 @@ func runC15History(t *testing.T, rec *Recorder, r *rand.Rand) {
 				} else {
 					close(holder)
 				}
+				// a start in which a fan never gets to regulate (its Run returned with an error) must end as well: stop when
+				// every fan regulates or has returned, and in any case after 20 minutes of virtual time
+				stopW := make(chan struct{})
+				watcher := make(chan struct{})
+				go func() {
+					defer close(watcher)
+					deadline := time.Now().Add(20 * time.Minute)
+					for {
+						select {
+						case <-stopW:
+							return
+						case <-time.After(500 * time.Millisecond):
+						}
+						mu.Lock()
+						ok := 0
+						for _, c := range cycles {
+							if c >= 2 {
+								ok++
+							}
+						}
+						mu.Unlock()
+						if ctx.Err() == nil && ((h.Returned() > 0 && ok+h.Returned() >= len(cfg.Fans)) || time.Now().After(deadline)) {
+							rec.Emit(Ev{"ev": "Cancel", "why": "some fans returned / budget"})
+							cancel()
+						}
+					}
+				}()
 				h.Start(ctx, Ev{"newTrace": first, "scenario": Ev{"c15": true, "op": o}})
 				h.Wait()
+				close(stopW)
+				<-watcher
 				<-holder
 				h.Final()
 			})
